@@ -413,8 +413,11 @@ Definition op_throw (r:rt) (c:context) (v:value) : opres :=
 
 Definition arr_all_strings (l:list value) : bool := forallb (fun v => match v with VStr _ => true | _ => false end) l.
 
+(* runtime.h current_value_scope(): nested scopes run in the namespace of the innermost executing scope *)
+Definition cur_ns (c:context) : string := match c_frames c with f :: _ => f_ns f | [] => default_ns end.
+
 Definition op_unary (n:string) (v:value) (r:rt) (c:context) : opres :=
-  let ns := default_ns in
+  let ns := cur_ns c in
   if String.eqb n "call" then
     match v with
     | VCode code =>   (* ops_generic.cpp:76 call_code *)
@@ -526,7 +529,7 @@ Definition cmp_op (n:string) (x y:Z) : option bool :=
 Definition ns_default (r:rt) := default_ns.
 
 Definition op_binary (n:string) (l v:value) (r:rt) (c:context) : opres :=
-  let ns := default_ns in
+  let ns := cur_ns c in
   if String.eqb n "call" then
     match v with
     | VCode code => Ok (r, push_frame c (mk_frame ns code None None [("_this", l)]), VNil)   (* ops_generic.cpp:84 *)
@@ -635,7 +638,7 @@ Definition op_binary (n:string) (l v:value) (r:rt) (c:context) : opres :=
     match v with
     | VCode body =>   (* ops_generic.cpp:1160 *)
         let id := r_next_id r in
-        let nc := push_frame (new_context id true) (mk_frame ns body None None [("_thisscript", VScript id); ("_this", l)]) in
+        let nc := push_frame (new_context id true) (mk_frame default_ns body None None [("_thisscript", VScript id); ("_this", l)]) in
         Ok (set_next_id (set_ctxs r (r_ctxs r ++ [nc])) (S id), c, VScript id)
     | _ => Unsupported "spawn" end
   else if String.eqb n "getvariable" then
